@@ -1,0 +1,26 @@
+//go:build verif
+
+// Package verif re-exports internal helpers for the external verification
+// harness. It is only compiled with the "verif" build tag.
+package verif
+
+import (
+	"io"
+
+	"github.com/superfly/litefs/internal"
+	"github.com/superfly/litefs/internal/chunk"
+)
+
+// NewChunkReader wraps chunk.NewReader.
+func NewChunkReader(r io.Reader) io.Reader { return chunk.NewReader(r) }
+
+// NewChunkWriter wraps chunk.NewWriter.
+func NewChunkWriter(w io.Writer) io.WriteCloser { return chunk.NewWriter(w) }
+
+// ChunkMaxSize is chunk.MaxChunkSize.
+const ChunkMaxSize = chunk.MaxChunkSize
+
+// ReadFullAt wraps internal.ReadFullAt.
+func ReadFullAt(r io.ReaderAt, buf []byte, off int64) (int, error) {
+	return internal.ReadFullAt(r, buf, off)
+}
